@@ -377,6 +377,9 @@ def make_mesh(src, grid, uniform=False, facescale=None, facemap=None):
                 upper = 6
             increasing_faces(src, name, src.size(a), first_nonneg=radial, upper=upper)
             fa = src.values[name].astype(float)
+            stress = getattr(src, 'unit_stress', None)
+            if stress and not (grid in ('PolarGrid2D', 'CylindricalGrid3D') and a == 1) and not (grid == 'SphericalGrid3D' and a in (1, 2)):
+                fa = fa * float(stress)        # bounded stand-in only: the same problem in extreme length units
             if facescale is not None:
                 fa = fa * float(facescale[a])
             if facemap is not None and facemap[a] is not None:
